@@ -62,10 +62,13 @@ CHECK = {
     },
     "parts": [
         {"name": "surf", "harness": "c12_surfaces", "sources": _SRC, "flavour": "rel",
+         "depth": {"quick": "thorough"},   # thorough bounds cost < 40 s
          "shards": {"quick": 16, "thorough": 16}, "deadline": {"quick": 120, "thorough": 1100}},
         {"name": "xform", "harness": "c12_surfaces", "sources": _SRC, "flavour": "rel",
+         "depth": {"quick": "thorough"},   # thorough bounds cost < 40 s
          "shards": {"quick": 16, "thorough": 16}, "deadline": {"quick": 120, "thorough": 1100}},
         {"name": "inv", "harness": "c12_surfaces", "sources": _SRC, "flavour": "rel",
+         "depth": {"quick": "thorough"},   # thorough bounds cost < 40 s
          "shards": {"quick": 16, "thorough": 16}, "deadline": {"quick": 120, "thorough": 1100}},
     ],
 }
